@@ -1,6 +1,6 @@
 """C11 — Zooming keeps the domain covered by active arms and plays the max-index arm."""
 from .. import configs
-from ..algorun import replay_algo, run_algo_task
+from ..algorun import bystander_tasks, replay_algo, run_algo_task
 from ..refs.zooming import ZoomingOracle
 
 ID = "C11"
@@ -29,6 +29,8 @@ def tasks(tier, seed):
                 rng = "Random" in part or (len(cfg["domain"]) > 1 and part != "DimensionBinary")
                 ts.append({"kind": "algo", "label": "full/" + lab, "cfg": cfg, "mode": "full", "T": (6 if (part == "RandomKary" and (K or 0) >= 4) else 7) if tier == "quick" else 10,
                            "R": list(configs.R3), "rng_k": 1 if rng else None, "cost": 4, "max_exec": 40000 if tier == "quick" else 600000})
+                if box != "u1":
+                    ts += bystander_tasks(lab, cfg, configs.R3, T_long=70, bases=("bigpeak", "twopeak"), k=1 if tier == "quick" else 2)
                 for base in (("bigpeak",) if tier == "quick" else ("bigpeak", "twopeak", "alt", "zero")):
                     ts.append({"kind": "algo", "label": "dev/%s/%s" % (lab, base), "cfg": cfg, "mode": "dev",
                                "T": 70 if tier == "quick" else 120, "R": list(configs.R3), "base": base,
